@@ -151,6 +151,37 @@ def ext_modules(ctx, tmp):
                     'tree': sorted(entries), 'theorem_or_correspondence': 'implementation vs importlib.machinery.FileFinder (extension suffixes)'}, True)
 
 
+def real_extension_modules(ctx):
+    """importing by path a compiled module of the interpreter's own library whose file name carries an ABI tag
+    (_ctypes.cpython-312-x86_64-linux-gnu.so): the module of that name comes back"""
+    import importlib.machinery as M
+    import sysconfig
+    from xdoctest.utils import util_import
+    dyn = sysconfig.get_config_var('DESTSHARED') or ''
+    names = []
+    if os.path.isdir(dyn):
+        for fn in sorted(os.listdir(dyn)):
+            for suf in M.EXTENSION_SUFFIXES:
+                if fn.endswith(suf) and suf.count('.') > 1:
+                    names.append((fn[:-len(suf)], os.path.join(dyn, fn)))
+                    break
+    names = [n for n in names if n[0] in ('_ctypes', '_json', '_struct', '_bisect', '_heapq', '_random', 'math', 'array', '_csv', 'binascii')][:6]
+    for name, path in names:
+        ctx.evaluations += 1
+        before = list(sys.path)
+        try:
+            mod = util_import.import_module_from_path(path)
+            got = getattr(mod, '__name__', None)
+        except Exception as e:      # noqa
+            got = 'raised %s: %s' % (type(e).__name__, str(e)[:120])
+        sys.path[:] = before
+        back = util_import.modpath_to_modname(path)
+        if got != name or back != name:
+            ctx.violation('import-resolution', {'what': 'import_module_from_path(%r) gives %r, modpath_to_modname gives %r; the interpreter imports this file as %r' % (
+                os.path.basename(path), got, back, name), 'path': path, 'theorem_or_correspondence': 'C17: importing by path returns the module of that name (tagged extension modules)'}, True)
+    ctx.count('tagged_extension_modules_imported_by_path', len(names))
+
+
 def symlink_trees(ctx, tmp):
     """modules and packages that are visible on the search path through symbolic links (a link named differently from its
     target, a linked package directory): the interpreter imports them under the name of the LINK; the four functions must agree with
@@ -502,6 +533,7 @@ def run(ctx):
         ext_modules(ctx, tmp)
         symlink_trees(ctx, tmp)
         names_that_are_files(ctx, tmp)
+        real_extension_modules(ctx)
     finally:
         shutil.rmtree(tmp, ignore_errors=True)
     ctx.exhaustive = True
